@@ -171,7 +171,7 @@ impl<'a, W: Write> Prettifier<'a, W> {
 
     fn write_tree(&mut self, root: &'a SimpleTerm<'a>) -> io::Result<()> {
         self.write_newline()?;
-        self.write_term(root)?;
+        self.write_node(root)?;
         self.write_properties(root)?;
         self.write_bytes(b".\n")?;
         Ok(())
@@ -252,7 +252,7 @@ impl<'a, W: Write> Prettifier<'a, W> {
         predicate: &'a SimpleTerm<'a>,
         object: &'a SimpleTerm<'a>,
     ) -> io::Result<()> {
-        self.write_term(object)?;
+        self.write_node(object)?;
         let tr = SimpleTerm::Triple(Box::new([
             subject.clone(),
             predicate.clone(),
@@ -268,6 +268,19 @@ impl<'a, W: Write> Prettifier<'a, W> {
             }
         }
         Ok(())
+    }
+
+    /// Write a term in subject or object position (including as a member of a collection),
+    /// where `rdf:nil` can be abbreviated as the empty collection.
+    ///
+    /// NB: this abbreviation is not allowed for predicates, graph names, datatypes,
+    /// nor inside quoted triples; for those, use [`write_term`](Self::write_term).
+    fn write_node(&mut self, term: &'a SimpleTerm<'a>) -> io::Result<()> {
+        if rdf::nil == term {
+            self.write_bytes(b"()")
+        } else {
+            self.write_term(term)
+        }
     }
 
     fn write_term(&mut self, term: &'a SimpleTerm<'a>) -> io::Result<()> {
@@ -291,9 +304,6 @@ impl<'a, W: Write> Prettifier<'a, W> {
     }
 
     fn write_iri(&mut self, iri: &IriRef<MownStr>) -> io::Result<()> {
-        if rdf::nil == iri {
-            return self.write_bytes(b"()");
-        }
         let Some(iri) = Iri::new(iri.as_str()).ok() else {
             return write!(self.write, "<{}>", iri.as_str());
         };
@@ -317,7 +327,7 @@ impl<'a, W: Write> Prettifier<'a, W> {
             self.indent();
             for item in items {
                 self.write_newline()?;
-                self.write_term(item)?;
+                self.write_node(item)?;
             }
             self.unindent();
             self.write_newline()?;
